@@ -18,7 +18,7 @@ RULE = ('seeded plans: 2-8 sessions opened (accepted and rejected), closed by '
 REQUIRED_PROBES = {'quick': ['api_dead_id', 'api_live_id', 'table_checked'],
                    'thorough': ['api_dead_id', 'api_live_id',
                                 'table_checked']}
-PROFILE = _gen.profile(max_sessions=8, I=[1.0, 2.0], T=[0.5, 1.0],
+PROFILE = _gen.profile(max_sessions=8, p_late_open=0.3, I=[1.0, 2.0], T=[0.5, 1.0],
                        p_upgrade=0.4, p_sabotage=0.3, sends=(0, 2),
                        client_msgs=(0, 1), p_end=0.7,
                        end_kinds=['close_packet', 'ws_close', 'drop',
